@@ -1173,9 +1173,11 @@ Proof.
     intros ds tr x tr' E; cbn [exec] in E.
   - inversion E; subst. exact Ha.
   - discriminate.
-  - destruct (Qeqb r 0); [discriminate|]. destruct ds as [|d ds']; [discriminate|]. eapply IH; exact E.
-  - destruct ds as [|d ds']; [discriminate|]. destruct (Qltb d p); [eapply IHa|eapply IHb]; exact E.
-  - destruct ds as [|d ds']; [discriminate|]. eapply IH; exact E.
+  - destruct (Qeqb r 0); [discriminate|]. destruct ds as [|d ds']; [discriminate|].
+    destruct (Qltb d 0); [discriminate|]. eapply IH; exact E.
+  - destruct ds as [|d ds']; [discriminate|]. destruct (unit_draw d); [|discriminate].
+    destruct (Qltb d p); [eapply IHa|eapply IHb]; exact E.
+  - destruct ds as [|d ds']; [discriminate|]. destruct (unit_draw d); [|discriminate]. eapply IH; exact E.
   - destruct (choose_exec w c ds tr) as [[[y|e] tr1] ds1]; [eapply IH; exact E|discriminate].
   - destruct c as [|c0 c']; [discriminate|]. destruct ds as [|d ds']; [discriminate|].
     destruct (nth_error (c0 :: c') (rank d)); [eapply IH; exact E|discriminate].
@@ -1281,14 +1283,15 @@ Qed.
 (* ---------------- directed_percolate_network = the timing builder on the drawn values ---------------- *)
 (* a rule value is consistent with a rate when it is a drawn number exactly if the rate is positive *)
 Definition drawn (rate : Q) (x : xtime) : bool :=
-  match x with Some _ => Qltb 0 rate | None => negb (Qltb 0 rate) end.
+  match x with Some d => Qltb 0 rate && negb (Qltb d 0) | None => negb (Qltb 0 rate) end.   (* expovariate returns d >= 0 *)
 Definition draws_x (x : xtime) : list Q := match x with Some d => [d] | None => [] end.
 
 Lemma exec_draw_time {A} rate (k : xtime -> samp A) x rest tr : drawn rate x = true ->
   exists tr', exec (draw_time rate k) (draws_x x ++ rest) tr = exec (k x) rest tr'.
 Proof.
   unfold drawn, draw_time. destruct x as [d|]; intro H.
-  - rewrite H. cbn [draws_x app exec].
+  - apply andb_true_iff in H. destruct H as [H Hd]. apply negb_true_iff in Hd.
+    rewrite H. cbn [draws_x app exec]. rewrite Hd.
     assert (Qeqb rate 0 = false) as ->.
     { unfold Qeqb. destruct (Qeq_bool rate 0) eqn:E; [|reflexivity]. apply Qeq_bool_iff in E.
       unfold Qltb in H. destruct (Qlt_le_dec 0 rate) as [L|L]; [|discriminate]. rewrite E in L. exfalso. exact (Qlt_irrefl _ L). }
